@@ -82,12 +82,12 @@ def handleTaintOp (j : Json) : OpOut :=
     let m15 := (Spec.C15.bad nowSec effect none (oJ.zip resps)).map (fun n => "C15:imprecise:" ++ n)
     if kind == "add" then
       let r := addTaint o 0 nowSec effect node
-      { diffs := (if r.j == oJ then [] else ["journal"]) ++ (if r.val == getD obs "ok" false then [] else ["ok"]) ++ dPanic,
+      { diffs := (if Spec.canonTaints r.j == Spec.canonTaints oJ then [] else ["journal"]) ++ (if r.val == getD obs "ok" false then [] else ["ok"]) ++ dPanic,
         mon := m15,
         tag := "taintop:add", model := Json.mkObj [("j", toJson r.j), ("ok", toJson r.val)] }
     else if kind == "delete" then
       let r := deleteTaint o 0 node
-      { diffs := (if r.j == oJ then [] else ["journal"]) ++ (if r.val == getD obs "ok" false then [] else ["ok"]) ++ dPanic,
+      { diffs := (if Spec.canonTaints r.j == Spec.canonTaints oJ then [] else ["journal"]) ++ (if r.val == getD obs "ok" false then [] else ["ok"]) ++ dPanic,
         mon := m15,
         tag := "taintop:delete", model := Json.mkObj [("j", toJson r.j), ("ok", toJson r.val)] }
     else
